@@ -54,6 +54,10 @@ type shardArgs struct {
 func (mon) Plan(prop, tier string, seed int64) []drv.Shard {
 	var out []drv.Shard
 	parts := 16
+	secs := 1200
+	if tier == "thorough" {
+		secs = 3600
+	}
 	add := func(mode string, count int, race bool, env ...string) {
 		for p := 0; p < parts; p++ {
 			a, _ := json.Marshal(shardArgs{Mode: mode, Part: p, Parts: parts, Count: count})
@@ -64,7 +68,7 @@ func (mon) Plan(prop, tier string, seed int64) []drv.Shard {
 			if len(env) > 0 {
 				name += "-" + strings.ToLower(strings.ReplaceAll(env[0], "=", ""))
 			}
-			out = append(out, drv.Shard{Name: name, Args: a, Race: race, Env: env, Secs: 1200})
+			out = append(out, drv.Shard{Name: name, Args: a, Race: race, Env: env, Secs: secs})
 		}
 	}
 	thorough := tier == "thorough"
